@@ -16,6 +16,26 @@ CHECKS = {
          "All 9363 profiles (lists <=4 over 4 attributes x optional, x allowOther, and the absent list) x all 3905 subjects (<=5 over 5 attributes) = 3.7e7 Validate calls are compared with the statement's predicate; 189 whole runs check that a rejected certificate at any tier aborts planning with an empty write log. Exhaustive within the bound; the walk has no state beyond two cursors, so lists of length 4/5 exercise every cursor interaction.",
          "Profiles that repeat a required attribute are compared only where both readings of 'missing' agree; attribute names outside the documented table are excluded.",
          "DESIGN.md §3 C09"),
+ "C08": ("model_checking",
+         "exhaustive product of small profile/certificate extension lists on the real config.Merge against a reference merge transcribed from the statement; whole-pipeline runs with real extension kinds",
+         "Quick: profile lists <=2 x certificate lists <=3 (1.6e5 merges) and 13k pipeline runs; thorough: <=3 x <=4 (2.2e7 merges) and 2.6e5 pipeline runs. Every case compares the merged list element-for-element with the reference and checks that the inputs are unchanged; in the pipeline a surviving content-less entry must fail the run and leave no file. Exhaustive within the bound; the merge keeps only two index lists as state, so repeated OIDs at list length 4 reach every bookkeeping interaction.",
+         "'differs' is modelled as configuration-entry difference. Random longer lists from the quantifier text are not used (sampling is outside this technique).",
+         "DESIGN.md §3 C08"),
+ "C17": ("exploration",
+         "bounded exhaustive enumeration of boundary scalars, block orders and malformed encodings against the real PKCS#8/PEM functions, an independent DER decoder and crypto/x509",
+         "10 curves x 20 boundary scalars and 10 RSA keys are written, re-read, and exchanged with the standard library and a reference decoder in both directions; every block order of an artifact file is read back; every strict prefix of a valid key and each clear-cut malformed encoding must be rejected. The scalar domain is unbounded, so only its boundaries (1, n-1, leading-zero widths) are decided.",
+         "Only clear-cut invalid inputs are in the rejection alphabet; scalar 0, outer PKCS#8 version and trailing bytes are not (standard library behaves alike).",
+         "DESIGN.md §3 C17"),
+ "C05": ("exploration",
+         "exhaustive enumeration of the key-algorithm x signature-algorithm x issuer-key-type grid through whole gopki runs, outputs decoded by an independent PKCS#8/X.509 decoder",
+         "All 15 x 9 combinations for roots and under each of the 14 issuer key types (2025 runs): the generated private key, the SubjectPublicKeyInfo and the signature algorithm identifiers are decoded independently and compared with the configuration. The grid is the whole quantifier; only RSA-4096/8192 generation is thinned (fixture keys imported instead) to keep quick within budget.",
+         "RSA-8192 generation by gopki itself only in the thorough tier; misfitting combinations are left to C01.",
+         "DESIGN.md §3 C05"),
+ "C01": ("exploration",
+         "exhaustive enumeration of small forests, algorithm triples and issuer origins through whole gopki runs; independent signature verification (incl. brainpool) and byte comparison of names and key ids",
+         "Every rooted forest on <=3/4 entities in 3 layouts with and without key-id profile, the 14 x 14 x 9 algorithm grid (6 subject representatives in quick), self-signed roots, three-tier chains and 7 issuer origins; every written certificate is verified under its issuer's current certificate file with the algorithm it names, issuer DN bytes and hash key ids are compared, and misfitting algorithms must fail without a certificate.",
+         "Signature primitives of Go's crypto and the brainpool curve parameters are trusted. Known finding: issuer DN re-encoding under foreign issuers (see known_findings.json).",
+         "DESIGN.md §3 C01"),
 }
 NOT_YET = "check not built yet in this round (planned, see DESIGN.md §3)"
 
